@@ -104,7 +104,10 @@ class Scenario:
             self.col.dig_from_waveguide(self.wgs)
             self.dev = Device(filename='dev.pgm', export_dir='', **self.cfg)
             grouped = rng.random() < 0.5
-            self.dev.extend([self.wgs] if grouped else list(self.wgs))
+            given = list(self.wgs)
+            if rng.random() < 0.6:
+                rng.shuffle(given)          # handed over in an order that is not the order of their input y
+            self.dev.extend([given] if grouped else given)
             self.dev.extend(list(self.mks))
             self.dev.append(self.col)
             self.G = pgm.make_compiler(self.cfg, 'w.pgm')
